@@ -55,13 +55,13 @@ stageLoop:
 			*logql.LabelFilter,
 			*logql.LabelFormatExpr,
 			*logql.DropLabelsExpr,
-			*logql.KeepLabelsExpr,
-			*logql.DistinctFilter:
+			*logql.KeepLabelsExpr:
 			// Do nothing on line, just skip.
 		case *logql.LineFormat,
 			*logql.DecolorizeExpr,
-			*logql.UnpackLabelParser:
-			// Stage modify the line, can't offload line filters after this stage.
+			*logql.UnpackLabelParser,
+			*logql.DistinctFilter:
+			// Stage modifies the line or is stateful, can't offload line filters after this stage.
 			break stageLoop
 		}
 	}
